@@ -79,7 +79,7 @@ per_count("opt_setnint", entry="h_opt_setnint", func="cfg_opt_setnint", harness=
 per_count("opt_setnfloat_bool", entry="h_opt_setnfloat_bool", func="cfg_opt_setnfloat, cfg_opt_setnbool", harness="harness/store.c", cbmc=unw(6) + OOM,
           label=FLAGTXT, props=["C09", "C10", "C18", "C02"], cost=40, **CF)
 per_count("opt_setnstr", entry="h_opt_setnstr", func="cfg_opt_setnstr", harness="harness/store.c", cbmc=unw(6) + OOM, label=FLAGTXT + "; strings <= 2 bytes", replay="replay/store_str.c",
-          props=["C09", "C10", "C18", "C16", "C02"], cost=60, **CF)
+          props=["C09", "C10", "C18", "C16", "C07", "C02"], cost=60, **CF)
 U("opt_setcomment", entry="h_opt_setcomment", func="cfg_opt_setcomment", harness="harness/store.c", defs={"quick": ["-DNV=2"]}, cbmc=unw(6) + OOM + LEAK,
   label="bounded(annotation <= 2 bytes)", props=["C15", "C18", "C07", "C16", "C02"], cost=10, **CF)
 per_count("free_value", entry="h_free_value", func="cfg_free_value", harness="harness/store.c", cbmc=unw(6) + LEAK,
@@ -113,7 +113,7 @@ per_count("setopt_pcb_int", counts_quick=(0, 1, 2), counts_thorough=(0, 1, 2), e
 per_count("setopt_ptr", counts_quick=(0, 1), counts_thorough=(0, 1), entry="h_setopt_ptr", func="cfg_setopt", harness="harness/setopt_arms.c",
           cbmc=unw(6) + OOM, label="PTR arm, scalar; parse / release callbacks present or absent", props=["C07", "C14", "C10", "C09", "C02"], cost=10, **CF)
 per_count("setopt_str", counts_quick=(0, 1, 2), counts_thorough=(0, 1, 2), entry="h_setopt_str", func="cfg_setopt", harness="harness/setopt_arms.c",
-          cbmc=unw(6) + OOM, label="STR arm with / without parse callback; strings <= 2 bytes; " + FLAGTXT, props=["C01", "C14", "C07", "C16", "C09", "C18", "C02"], cost=40, **CF)
+          cbmc=unw(6) + OOM, label="STR arm with / without parse callback; strings <= 2 bytes; " + FLAGTXT, props=["C01", "C14", "C07", "C16", "C09", "C10", "C18", "C02"], cost=40, **CF)
 U("setopt_args", entry="h_setopt_args", func="cfg_setopt", harness="harness/setopt_arms.c", defs={"quick": ["-DNV=2"]}, cbmc=unw(6) + OOM,
   label="proof (loop-free paths: argument validation)", props=["C09", "C10", "C02"], cost=5, **CF)
 
@@ -121,7 +121,7 @@ U("setopt_args", entry="h_setopt_args", func="cfg_setopt", harness="harness/seto
 SECC = dict(remove=["cfg_free", "cfg_dupopt_array", "cfg_init_defaults"], carriers=["carriers/cfg_free.c", "carriers/cfg_dupopt_array.c", "carriers/cfg_init_defaults.c"])
 SECTXT = "7 literal option flag words (MULTI/TITLE/NO_TITLE_DUPES/NOCASE/KEYSTRVAL/DEFINIT) x 2 context flag words; titles 1 byte over all bytes"
 per_count("setopt_sec", counts_quick=(0, 1, 2), counts_thorough=(0, 1, 2), entry="h_setopt_sec", func="cfg_setopt", harness="harness/sections.c",
-          cbmc=unw(8) + OOM, label="section arm; " + SECTXT + "; any allocation may fail", props=["C01", "C09", "C10", "C07", "C16", "C18", "C06", "C12", "C19", "C02"], cost=60, **SECC)
+          cbmc=unw(8) + OOM, label="section arm; " + SECTXT + "; any allocation may fail", props=["C01", "C09", "C10", "C07", "C16", "C18", "C06", "C12", "C19", "C11", "C15", "C02"], cost=60, **SECC)
 per_count("gettsec", counts_quick=(0, 1, 2), counts_thorough=(0, 1, 2, 3), entry="h_gettsec", func="cfg_opt_gettsecidx, cfg_opt_gettsec", harness="harness/sections.c",
           cbmc=unw(8), label=SECTXT, props=["C09", "C11", "C02"], cost=20, **SECC)
 per_count("rmnsec", counts_quick=(0, 1, 2), counts_thorough=(0, 1, 2, 3), entry="h_rmnsec", func="cfg_opt_rmnsec", harness="harness/sections.c",
